@@ -207,5 +207,53 @@ func (vm *VM) SelfTest(maxLen int) (int, []string) {
 			}
 		})
 	}
+	// string equality over decimal atoms: the condition built by strEq, evaluated under
+	// the pinned values, must agree with equality of the rendered strings
+	ints := []int64{-12, -1, 0, 1, 5, 10, 123}
+	cands := []string{"", "0", "1", "5", "-1", "-12", "10", "123", "012", "+5", "5 ", " 5", "-0", "1/2", "USD 5", "USD 10", "USD -1", "USD  5", "EUR 5", "5/10", "10/5", "1/1", "-1/5", "5/", "/5", "USD", "USD 5 "}
+	for _, k := range ints {
+		for _, m2 := range ints {
+			func() {
+				vm.resetPath(nil)
+				vm.Solver.PopTo(0)
+				vm.Solver.Push()
+				defer func() {
+					recover()
+					vm.Solver.PopTo(0)
+					vm.undoTo(0)
+				}()
+				a, b := smt.Var("sa", smt.SInt), smt.Var("sb", smt.SInt)
+				vm.declared["sa"], vm.declared["sb"] = symDecl{"int"}, symDecl{"int"}
+				vm.assume(smt.Eq(a, smt.Int64(k)))
+				vm.assume(smt.Eq(b, smt.Int64(m2)))
+				model := map[string]*big.Int{"sa": big.NewInt(k), "sb": big.NewInt(m2)}
+				shapes := []Value{
+					mkStr([]Atom{{Kind: aDec, T: a}}),
+					mkStr([]Atom{{Kind: aConc, S: "USD "}, {Kind: aDec, T: a}}),
+					mkStr([]Atom{{Kind: aDec, T: a}, {Kind: aConc, S: "/"}, {Kind: aDec, T: b}}),
+					mkStr([]Atom{{Kind: aConc, S: "\""}, {Kind: aDec, T: a}, {Kind: aConc, S: "\""}}),
+				}
+				others := append([]Value{}, shapes...)
+				others = append(others, mkStr([]Atom{{Kind: aDec, T: b}}), mkStr([]Atom{{Kind: aConc, S: "USD "}, {Kind: aDec, T: b}}), mkStr([]Atom{{Kind: aDec, T: b}, {Kind: aConc, S: "/"}, {Kind: aDec, T: a}}))
+				for _, c := range cands {
+					others = append(others, c, "\""+c+"\"")
+				}
+				for _, x := range shapes {
+					for _, y := range others {
+						n++
+						c, ok := strEq(x, y)
+						if !ok {
+							continue // a refusal makes a run inconclusive, it is not a wrong answer
+						}
+						_, got := c.Eval(model)
+						want := concretize(x, model) == concretize(y, model)
+						if got != want {
+							fail("strEq", concretize(x, model)+" vs "+concretize(y, model), fmt.Sprint(got), fmt.Sprint(want))
+						}
+					}
+				}
+			}()
+		}
+	}
 	return n, bad
 }
